@@ -22,13 +22,7 @@ ALPHA = Alphabet(
     look=[(T0, "a", "nowait"), (T1, "a", "nowait")],
     leave=False,
 )
-ALPHA_T = Alphabet(
-    max_ctx=2,
-    add=ALPHA.add + [((T0,), "b", "td")],
-    fac=ALPHA.fac + [((T0, T1), "a", True, "ok")],
-    look=[(T0, "a", "nowait"), (T1, "a", "await"), (T0, "b", "nowait")],
-    leave=True,
-)
+ALPHA_T = Alphabet(max_ctx=2, add=ALPHA.add, fac=ALPHA.fac, look=[(T0, "a", "nowait"), (T1, "a", "await")], leave=True)
 
 
 def cfg(tier):
@@ -65,7 +59,7 @@ R = Harness(
         "non-callable teardown_callback / invalid type), add_resource_factory(T0 | T1+T0 | invalid name | None among types), lookups; "
         "then generating probes and closing of all contexts"
         if tier == "quick"
-        else "histories of 4 ops over <=2 contexts; the quick alphabet plus a second name, an async multi-type factory, await lookups and leave(child)"
+        else "histories of 4 ops over <=2 contexts; the quick alphabet plus await lookups and leave(child)"
     ),
     oracle="raises exactly the expected exception (ResourceConflict iff a requested pair is taken; ValueError/TypeError for invalid input); "
     "after every step every context's table equals the model's, in which a failed call changes nothing; returned objects are stable per pair; "
